@@ -12,9 +12,13 @@ def run(ctx):
     quick = ctx.tier == "quick"
     pd.t1(ctx, 2, 5 if quick else 6)
     recs = pd.emit_polygons(ctx, 2, 5 if quick else 6)
+    # named polygons with many reflex corners (combs, saw, spiral, zig-zag, star; 6-16 vertices), every relabelling
+    pd.t1_named(ctx, "NamedSmall" if quick else "Named")
+    named = pd.emit_named(ctx, "NamedSmall" if quick else "Named")
+    recs += named[::5] if quick else named
     if not quick:
         recs += pd.emit_polygons(ctx, 3, 7, relabel=True, simulate=400, depth=12)
-        ctx.exhaustive = False
+    ctx.exhaustive = False
     cases = pd.build_cases(recs, "inside", ctx.tier, ctx.seed, 2 if quick else 11)
     pd.replay(ctx, cases)
     from .. import curved_eval
